@@ -91,7 +91,7 @@ def driver(p, max_dt, t0, readings, out_time, empty_vector=False):
 def schedules(p, max_dt):
     keys = p.s_sensors()
     md = max_dt
-    out = [("no-readings-forward", 0.0, [], 2.5 * md), ("no-readings-backward", 1.0, [], 1.0 - 1.25 * md), ("no-readings-same-time", 0.5, [], 0.5), ("empty-readings-vector", 0.0, [], 1.5 * md)]
+    out = [("no-readings-forward", 0.0, [], 2.5 * md), ("no-readings-backward", 1.0, [], 1.0 - 1.25 * md), ("no-readings-same-time", 0.5, [], 0.5), ("empty-readings-vector", 0.0, [], 1.5 * md), ("exact-multiple-forward", 0.0, [], 5 * md), ("exact-multiple-backward", 10.0, [], 10.0 - 10 * md)]
     if len(keys) >= 1:
         out.append(("one-reading", 0.0, [(1.5 * md, keys[0])], 2.25 * md))
         out.append(("reading-before-held-time", 1.0, [(1.0 - 0.5 * md, keys[0])], 1.0 + 0.75 * md))
